@@ -16,10 +16,11 @@ OPCH = set('+-*/%^<>=!|&~:?.@')
 SPACED_OPS = ('<=', '>=', '!=', '<', '>', '==')
 
 VARS = ['x', 'y', 'z', 'a1', 'v_2', 'inx', 'xin', 'thenb', 'elsey', 'ifz', 'combinex', 'distinctly', 'u',
-        'b_else', 'else_b', 'then_b', 'a_then', 'if_c', 'c_if', 'in_d', 'd_in', 'a_limit', 'limit_a', 'order_by_x',
+        'b_else', 'else_b', 'then_b', 'a_then', 'if_c', 'c_if', 'in_d', 'd_in',
         'x_distinct', 'is_null', 'combine_y']
-PREDS = ['P', 'Q', 'R', 'Foo', 'Bar2', 'T_x', 'In', 'Distinct', 'My_limit', 'Is_distinct', 'Limit_x', 'A_in', 'In_b',
-         'Order_by', 'X_then', 'Else_y']
+# names ending in _limit / _order_by are not generated: both parsers take `My_limit(` for the limit(...) denotation
+# (known finding C06 diff:denotation-inside-identifier, kept as a probe there)
+PREDS = ['P', 'Q', 'R', 'Foo', 'Bar2', 'T_x', 'In', 'Distinct', 'Is_distinct', 'A_in', 'In_b', 'X_then', 'Else_y']
 FIELDS = ['a', 'b', 'c2', 'name', 'inn']
 AGGS = ['+=', 'List=', 'Max=', 'Sum=', 'ArgMax=']
 BINOPS = ['+', '-', '*', '/', '%', '==', '!=', '<', '<=', '>', '>=', '&&', '||', '++', '->', '^']
@@ -65,7 +66,7 @@ class Gen(object):
       self.features.add('string"')
       return [['"' + body + '"', 's']]
     if k < 0.85:
-      body = ''.join(pieces).replace("'", r.choice(["\\'", ''])).replace('\\', '') if r.random() < 0.5 else \
+      body = ''.join(pieces).replace('\\', '').replace("'", r.choice(["\\'", ''])) if r.random() < 0.5 else \
           ''.join(p for p in pieces if p not in ("'", '\\')) + r.choice(['', '\\\\', '\\n', "\\'", '\\(', '\\]'])
       self.features.add("string'")
       return [["'" + body + "'", 's']]
